@@ -820,8 +820,14 @@ TAGMODES = {
     "contradictory-zero": (["xx:i:1"], ["xx:i:0"]),
     "contradictory-among": (["yy:i:7", "xx:i:1"], ["xx:i:2", "zz:i:3"]),
     "contradictory-type": (["xx:i:1"], ["xx:Z:1"]),
+    # tags whose datatype is not the default for their value (canonical
+    # spellings), on the earlier and on the later line
+    "datatypes": (["ca:A:c", "jj:J:[1, 2]", "bb:B:C,1,2", "hh:H:1AF0",
+                   "ff:f:1.5"], ["zz:Z:q"]),
+    "datatypes-late": (["zz:Z:q"], ["ca:A:c", "jj:J:[1, 2]", "ff:f:1.5"]),
 }
-CORE_MODES = ["disjoint", "equal", "contradictory"]
+CORE_MODES = ["disjoint", "equal", "contradictory", "datatypes",
+              "datatypes-late"]
 
 O1_FOR_MERGE = "b+ c-"
 U0_FOR_MERGE = "c o1"
